@@ -638,6 +638,32 @@ func (h *Runner) Exec(st Step) Obs {
 			_ = h.DB.RemoveWAL(context.Background())
 			_ = h.DB.RemoveSHM(context.Background())
 			h.WALMode = false
+		case "torollbackj":
+			// PRAGMA journal_mode=DELETE as SQLite runs it (vdbe.c OP_JournalMode): the log is closed first - checkpointed
+			// completely, -wal and -shm deleted - and then page 1 is rewritten with version 1 in a transaction that
+			// "regardless of the journal mode ... always uses a rollback journal"
+			if err = h.appCheckpoint(3); err != nil {
+				return
+			}
+			h.Rec.Ops = append(h.Rec.Ops, "OWalTruncate")
+			_ = h.DB.RemoveWAL(context.Background())
+			_ = h.DB.RemoveSHM(context.Background())
+			d := append([]byte(nil), h.Ref.Pages[0]...)
+			lfs.SetHeader(d, ps, uint32(len(h.Ref.Pages)), false)
+			tx := lfs.Tx{Writes: map[uint32][]byte{1: d}, NewSize: uint32(len(h.Ref.Pages)), Wal: false}
+			first := len(h.Rec.Ops)
+			err = h.Pager.RunRollbackTx(h.Ref, tx, lfs.JournalMode(st.JMode), lfs.Commit, st.Sector, 0)
+			for i := first; i < len(h.Rec.Ops); i++ { // page writes inside a rollback-journal transaction
+				if strings.HasPrefix(h.Rec.Ops[i], "OWrite ") {
+					h.Rec.Ops[i] = "OWriteJ " + strings.TrimPrefix(h.Rec.Ops[i], "OWrite ")
+				}
+			}
+			if err == nil {
+				h.Ref = lfs.ApplyTx(h.Ref, tx, ps)
+				h.RefPos++
+				ob.Captured = true
+				h.WALMode = false
+			}
 		case "appckpt":
 			err = h.appCheckpoint(st.CkptMode)
 		case "lfsckpt":
